@@ -81,6 +81,30 @@ def run(ctx):
                  {"a": "Deliver", "cm": {}, "name": "cam", "rl": 2}]
             scripts.append({"run": len(scripts), "src": "directed:two-paths-rehomed-together", "h": h})
 
+    # directed: a name that lives under a regular-expression configuration without capture groups is re-homed to
+    # a newly added static configuration of that name; then its publisher leaves: the path of a static
+    # configuration must stay (and, the other way round, a path re-homed from static to regex goes away when idle)
+    for rep in range(ctx.pick(2, 6)):
+        for hot in (0, 1):
+            ao1 = {"hot": 0, "cold": 1}
+            st = {"hot": hot, "cold": 1}
+            # the static path is closed (cold value differs), "cam" is then created by a request under all_others,
+            # the static configuration comes back with the same cold value: the live path is re-homed to it
+            h = [{"a": "Reload", "cm": {"cam": A, "R1": A, "R2": A, "AO": ao1}, "name": "", "rl": 1},
+                 {"a": "Request", "cm": {}, "name": "cam", "rl": 0},
+                 {"a": "Reload", "cm": {"cam": st, "R1": A, "R2": A, "AO": ao1}, "name": "", "rl": 2},
+                 {"a": "Deliver", "cm": {}, "name": "cam", "rl": 2},
+                 {"a": "Release", "cm": {}, "name": "cam", "rl": 0}]
+            scripts.append({"run": len(scripts), "src": "directed:regex-to-static-then-idle", "h": h})
+            # the other way round: the static path is re-homed to all_others, gets a publisher, loses it
+            h = [{"a": "Reload", "cm": {"cam": A, "R1": A, "R2": A, "AO": on}, "name": "", "rl": 1},
+                 {"a": "Deliver", "cm": {}, "name": "cam", "rl": 1},
+                 {"a": "Request", "cm": {}, "name": "cam", "rl": 0},
+                 {"a": "Release", "cm": {}, "name": "cam", "rl": 0},
+                 {"a": "Request", "cm": {}, "name": "dog", "rl": 0},
+                 {"a": "Release", "cm": {}, "name": "dog", "rl": 0}]
+            scripts.append({"run": len(scripts), "src": "directed:static-to-regex-then-idle", "h": h})
+
     # 2. GEN: seeded random behaviours (the state graph has too many edges to cover in a quick run)
     nsim = ctx.pick(300, 4000)
     r = vf.tlc(ctx, "PathManagerMC", cfg("PM_sim.cfg", "INVARIANT EmitRun", r=4, inc=9, depth=12), workers=1, timeout=900,
